@@ -8,7 +8,7 @@ executable model is the oracle (LOADS correspondence), so ill-formed combination
 valid ones (both sides must refuse them in the same way). Integers stay small: int64 overflow is
 outside the properties."""
 
-NAMES = ["x", "m", "A", "B", "p0"]
+NAMES = ["x", "m", "A", "B", "p0", "nan", "inf"]
 GATES = ["Sgate", "Rgate", "Dgate", "Vac", "MeasureX", "Xgate", "BSgate"]
 
 
@@ -80,7 +80,11 @@ def item(rng, st):
     if r < 0.20:
         n = rng.choice(NAMES)
         t = rng.choice(['str %s = "a b"', "bool %s = True", "bool %s = False"])
+        src = [k for k, v in st.kind.items() if v == t.split()[0] and k != n]
         st.kind[n] = t.split()[0]
+        if src and rng.random() < 0.5:
+            # a string / boolean variable initialised from another one (an expression, not a literal)
+            return ["%s %s = %s" % (t.split()[0], n, rng.choice(src))]
         return [t % n]
     if r < 0.36:
         a = rng.choice(NAMES)
@@ -113,7 +117,11 @@ def item(rng, st):
         ty = rng.choice(["int", "int", "float"])
         v = rng.choice(NAMES)
         n = st.pick(rng, is_int)
-        hdr = rng.choice(["0:2", "1:3", "3:3", "4:1", "0:6:2", "2:2:1", "[1, 2]", "[0]", "(2, 0)", "[%s, 1]" % n, "0:1"])
+        hdr = rng.choice(["0:2", "1:3", "3:3", "4:1", "0:6:2", "2:2:1", "[1, 2]", "[0]", "(2, 0)", "[%s, 1]" % n, "0:1",
+                          # the header is evaluated once, before the loop variable is bound: later elements that
+                          # mention a shadowed variable see ITS value, and the loop's own (undeclared) name is undefined
+                          "[%s, %s+1, %s+2]" % (n, n, n), "[1, %s+1, %s*3]" % (v, v), "[%s, %s*2]" % (v, v),
+                          "[%s[0], %s[1]]" % (st.pick(rng, is_int_arr), st.pick(rng, is_int_arr))])
         if ty == "float" and rng.random() < 0.5:
             hdr = rng.choice(["[0.5, 1.5]", "[1.0]", "0:2"])
         body = []
